@@ -11,7 +11,7 @@ for f in ("patch.diff", "demo_test.go", "README.md"):
         # keep Go test out of the verif module's package tree: store as .txt
         shutil.copy(os.path.join(src, f), os.path.join(dst, f if f != "demo_test.go" else "demo_test.go.txt"))
 conf = ""
-for log in ("/tmp/seed/confirm_batch1.log", "/tmp/seed/confirm_batch2.log", "/tmp/seed/confirm_batch3.log", "/tmp/seed/confirm_batch4.log", "/tmp/seed/confirm_batch5.log", "/tmp/seed/confirm_batch6.log", "/tmp/seed/confirm_batch7.log", "/tmp/seed/confirm_batch8.log", "/tmp/seed/confirm_batch9.log", "/tmp/seed/confirm_batch10.log", "/tmp/seed/confirm_batch11.log", "/tmp/seed/confirm_batch12.log"):
+for log in ("/tmp/seed/confirm_batch1.log", "/tmp/seed/confirm_batch2.log", "/tmp/seed/confirm_batch3.log", "/tmp/seed/confirm_batch4.log", "/tmp/seed/confirm_batch5.log", "/tmp/seed/confirm_batch6.log", "/tmp/seed/confirm_batch7.log", "/tmp/seed/confirm_batch8.log", "/tmp/seed/confirm_batch9.log", "/tmp/seed/confirm_batch10.log", "/tmp/seed/confirm_batch11.log", "/tmp/seed/confirm_batch12.log", "/tmp/seed/confirm_batch13.log"):
     if os.path.exists(log):
         t = open(log).read()
         key = "#### " + sid.replace("-", "/")
